@@ -2,8 +2,9 @@
    after [exact] (= does_node_match_exactly) accepted the new node against the CURRENT binding.
 
    The statement C04_coherent_stmt of Rule/EvalSpec.v compares the FIRST binding with the LAST one,
-   which needs transitivity of [exact]; [exact] is not transitive (it compares named leaves by text,
-   internal nodes by kind and children, and short-cuts on equal ids), so the statement is FALSE:
+   which needs transitivity of [exact]; [exact] is not transitive (it compares nodes without named
+   children by text, other nodes by kind and children, and short-cuts on equal ids), so the
+   statement is FALSE:
    see [C04_coherent_refuted] (a well-formed document with unique ids).  What is true is the chain
    version [C04_coherent_chain]: the old and the new binding are linked by a chain of pairwise
    [exact] nodes, every link after the first being a node of the matched candidate. *)
@@ -21,12 +22,16 @@ Module Counterexample.
   Definition mk (id k : N) (nm : bool) (s e : N) : ninfo :=
     {| nid := id; nkind := k; nnamed := nm; ncomment := false; nmissing := false; nfld := 0;
        ns := s; ne := e |}.
-  (* a : named leaf "x";  b : internal node "x" over an unnamed token;
-     c : internal node "x " (same kind as b, same token kind below, one more byte of text) *)
+  (* [is_named_leaf] = "has no named children".
+     a : a leaf "x" (no named children);
+     b : inner node of kind 2 whose range is exactly "x", with ONE named child (a leaf "x");
+     c : inner node of the same kind over one named child "x", but whose own range is "x "
+         (the child does not fill the parent).
+     exact a b by text, exact b c by shape (kind + children), not exact a c (text "x" vs "x "). *)
   Definition a  : tree := T (mk 1 1 true 0 1) [].
-  Definition b1 : tree := T (mk 4 3 false 2 3) [].
+  Definition b1 : tree := T (mk 4 3 true 2 3) [].
   Definition b  : tree := T (mk 3 2 true 2 3) [b1].
-  Definition c1 : tree := T (mk 6 3 false 4 5) [].
+  Definition c1 : tree := T (mk 6 3 true 4 5) [].
   Definition c  : tree := T (mk 5 2 true 4 6) [c1].
   Definition X  : tree := T (mk 2 7 true 2 6) [b; c].
   Definition root : tree := T (mk 0 9 true 0 6) [a; X].
